@@ -710,6 +710,15 @@ class Machine:
     def _prep(self, op, h, *specs):
         extras = op.get("extra") or []
         self.used_specs = [s for s in specs if isinstance(s, list)] + list(extras) + h.lineage
+        if any(isinstance(c, list) and c[-1] == "by-add-replacement" for c in h.lineage):
+            # A replacement the user set with add_replacement() is not a constraint of the actual solver.  Where applying it
+            # would fold a division by zero, claripy leaves the term unreplaced and the actual solver sees the variable
+            # free: "var == const" (this harness's reading of add_replacement) has no defined meaning there - no verdict.
+            def has_div(sp):
+                return isinstance(sp, list) and bool(sp) and (sp[0] in ("udiv", "urem", "sdiv", "srem") or any(has_div(x) for x in sp[1:]))
+
+            if any(has_div(s) for s in list(specs) + list(extras)):
+                raise NoVerdict
         return extras, self.asts(extras)
 
     def op_sat(self, op):
